@@ -7,7 +7,8 @@ EXTENDS Loader, Json, IOUtils
 CONSTANTS FileSeq,      \* the files in build order, FileSeq[1] = Root
           MaxStmts,     \* total number of load statements in the graph
           GenKinds, GenSpellings,
-          DevChoices    \* set of deviation sets to run (ideal: {{}})
+          DevChoices,   \* set of deviation sets to run (ideal: {{}})
+          MaxFaultAt    \* faults are armed on loader call 1..MaxFaultAt (0: no fault injection)
 
 VARIABLES phase, cur, nst
 vars == <<lvars, phase, cur, nst>>
@@ -24,6 +25,9 @@ DevAllThree == {{"lock_key_textual", "modcache_key_textual", "loadcss_unlock_ear
 DevEach     == {{"lock_key_textual"}, {"modcache_key_textual"}, {"loadcss_unlock_early"},
                 {"lock_key_textual", "modcache_key_textual", "loadcss_unlock_early"}}
 
+NoFault == [at |-> 0, kind |-> "find"]
+Faults  == {NoFault} \cup [at : 1..MaxFaultAt, kind : {"find", "read"}]
+
 Empty == [f \in Files |-> <<>>]
 
 Init == /\ phase = "build" /\ cur = 1 /\ nst = 0
@@ -31,6 +35,7 @@ Init == /\ phase = "build" /\ cur = 1 /\ nst = 0
         /\ prog = Empty
         /\ stack = <<>> /\ loading = {} /\ modcache = {} /\ result = "build"
         /\ execs = [f \in Files |-> 0] /\ modinits = [f \in Files |-> 0]
+        /\ calls = 0 /\ fault = NoFault
 
 (* @use/@forward must precede other rules in a Sass file *)
 OrderOk(sq, k) == IF sq = <<>> THEN TRUE
@@ -41,7 +46,7 @@ AddStmt == /\ phase = "build" /\ nst < MaxStmts
                 /\ OrderOk(prog[FileSeq[cur]], k)
                 /\ prog' = [prog EXCEPT ![FileSeq[cur]] = Append(@, [kind |-> k, target |-> t, sp |-> sp])]
            /\ nst' = nst + 1
-           /\ UNCHANGED <<Dev, stack, loading, modcache, result, execs, modinits, phase, cur>>
+           /\ UNCHANGED <<Dev, stack, loading, modcache, result, execs, modinits, calls, fault, phase, cur>>
 
 NextFile == /\ phase = "build" /\ cur < Len(FileSeq)
             /\ cur' = cur + 1
@@ -55,7 +60,8 @@ Start == /\ phase = "build"
          /\ loading' = {LockKey(<<Root>>)}
          /\ result' = "run"
          /\ execs' = [f \in Files |-> IF f = Root THEN 1 ELSE 0]
-         /\ UNCHANGED <<Dev, prog, modcache, modinits, cur, nst>>
+         /\ fault' \in (IF MaxFaultAt = 0 THEN {fault} ELSE Faults)
+         /\ UNCHANGED <<Dev, prog, modcache, modinits, calls, cur, nst>>
 
 Run == /\ phase = "run" /\ result = "run"
        /\ RunNext
@@ -73,9 +79,10 @@ DevSubsets == SUBSET AllDevs
 ProgRecs   == ndJsonDeserialize(IOEnv.PROGS)
 InitExplain == /\ phase = "build" /\ cur = Len(FileSeq) /\ nst = MaxStmts
                /\ Dev \in DevSubsets
-               /\ \E i \in DOMAIN ProgRecs : prog = ProgRecs[i].files
+               /\ \E i \in DOMAIN ProgRecs : prog = ProgRecs[i].files /\ fault = ProgRecs[i].fault
                /\ stack = <<>> /\ loading = {} /\ modcache = {} /\ result = "build"
                /\ execs = [f \in Files |-> 0] /\ modinits = [f \in Files |-> 0]
+               /\ calls = 0
 
 Next == AddStmt \/ NextFile \/ Start \/ Run \/ Finish
 SpecExplain == InitExplain /\ [][Next]_vars
@@ -91,6 +98,6 @@ Termination == (phase = "run") ~> (phase = "done")
 AllUsed == \A f \in Files : prog[f] # <<>> => f \in Reachable(prog)
 
 Emit == (Done /\ AllUsed) =>
-          PrintT(<<"VEC", ToJson([files |-> prog, dev |-> Dev,
-                                  expect |-> [result |-> result, execs |-> execs, modinits |-> modinits]])>>)
+          PrintT(<<"VEC", ToJson([files |-> prog, dev |-> Dev, fault |-> fault,
+                                  expect |-> [result |-> result, execs |-> execs, modinits |-> modinits, calls |-> calls]])>>)
 =============================================================================
